@@ -1061,9 +1061,90 @@ def function(f=None, **kw):
     return f
 
 
+def _source_atoms(src):
+    """the symbol atoms of a differentiation source (Variable or tensor of plain symbols)"""
+    arr = _arr(src.value_ if isinstance(src, Variable) else src)
+    out = []
+    for e in arr.reshape(-1):
+        e = tm._l(e)
+        if e.op != "v":
+            raise NotModelled("tf.GradientTape: source is not a tensor of plain symbols (%s)" % tm.short(e, 60))
+        out.append(e)
+    return arr.shape, out
+
+
 class _GradientTape:
-    def __init__(self, *a, **k):
-        raise NotModelled("tf.GradientTape (autodiff is an assumed contract, A-AD)")
+    """model of TensorFlow reverse-mode autodiff: tape.gradient(y, sources) is the MATHEMATICAL gradient of sum(y) with respect to
+    the symbols the sources hold, obtained by terms.diff (A-AD: that TensorFlow's autodiff computes this is the trusted part; which
+    value is differentiated with respect to what, and how batches are accumulated, is the repository's code and runs for real)."""
+
+    def __init__(self, persistent=False, watch_accessed_variables=True):
+        self.persistent = persistent
+
+    def __enter__(self):
+        return self
+
+    def __exit__(self, *a):
+        return False
+
+    def watch(self, x):
+        return None
+
+    def _one(self, roots, src):
+        shape, atoms = _source_atoms(src)
+        out = real_np.empty(len(atoms), dtype=object)
+        for i, at in enumerate(atoms):
+            acc = tm.ZERO
+            for d in tm.diff(roots, {at: tm.ONE}):
+                acc = tm.add(acc, d)
+            out[i] = acc
+        return STensor(out.reshape(shape))
+
+    def gradient(self, target, sources, output_gradients=None, unconnected_gradients=None):
+        if output_gradients is not None:
+            raise NotModelled("tf.GradientTape.gradient(output_gradients=...)")
+        roots = []
+        for e in _arr(target).reshape(-1):
+            if isinstance(e, tm.C):
+                raise NotModelled("tf.GradientTape on a complex target")
+            roots.append(tm._l(e))
+        if isinstance(sources, (list, tuple)):
+            return [self._one(roots, s_) for s_ in sources]
+        return self._one(roots, sources)
+
+
+class _ForwardAccumulator:
+    """model of tensorflow.python.eager.forwardprop.ForwardAccumulator: acc.jvp(t) is the directional derivative of t along the
+    tangents given for the primals (terms.diff with the tangents as seeds)"""
+
+    def __init__(self, primals, tangents):
+        self.table = {}
+        for p_, t_ in zip(primals, tangents):
+            _, atoms = _source_atoms(p_)
+            tv = _arr(t_).reshape(-1)
+            assert len(tv) == len(atoms)
+            for a_, v_ in zip(atoms, tv):
+                self.table[a_] = tm._l(v_)
+
+    def __enter__(self):
+        return self
+
+    def __exit__(self, *a):
+        return False
+
+    def jvp(self, target, unconnected_gradients=None):
+        def one(t):
+            arr = _arr(t)
+            flat = [tm._l(e) for e in arr.reshape(-1)]
+            ds = tm.diff(flat, self.table)
+            out = real_np.empty(len(flat), dtype=object)
+            for i, d in enumerate(ds):
+                out[i] = d
+            return STensor(out.reshape(arr.shape))
+
+        if isinstance(target, (list, tuple)):
+            return [one(t) for t in target]
+        return one(target)
 
 
 class _Stub:
@@ -1227,6 +1308,19 @@ def install():
     sys.modules["tensorflow"] = tf
     for sub in ("math", "linalg", "random", "config", "compat", "debugging", "errors"):
         sys.modules["tensorflow." + sub] = getattr(tf, sub)
+    # `from tensorflow.python.eager import forwardprop` (tf_pwa.model.model.sum_grad_hessp)
+    import types
+
+    py = types.ModuleType("tensorflow.python")
+    eager = types.ModuleType("tensorflow.python.eager")
+    fwd = types.ModuleType("tensorflow.python.eager.forwardprop")
+    fwd.ForwardAccumulator = _ForwardAccumulator
+    eager.forwardprop = fwd
+    py.eager = eager
+    tf.python = py
+    sys.modules["tensorflow.python"] = py
+    sys.modules["tensorflow.python.eager"] = eager
+    sys.modules["tensorflow.python.eager.forwardprop"] = fwd
     return tf
 
 
